@@ -10,6 +10,7 @@ use tokio::task::LocalSet;
 use tokio::time::{sleep, Duration, Instant};
 
 use super::Result;
+use crate::World;
 
 // To support re-creation, we need to store a factory of the future that
 // represents the software. This is somewhat annoying in that it requires
@@ -211,6 +212,18 @@ impl<'a> Rt<'a> {
         }
 
         self.cancel_tasks();
+
+        // The host's timer still holds an `Instant` taken from the runtime
+        // that was just dropped (or none at all if the host never ran).
+        // Re-anchor it on the new runtime's clock before the software factory
+        // runs below, otherwise clock reads in the factory compare two
+        // unrelated paused clocks, i.e. observe wall-clock time.
+        let now = self.now();
+        World::current_if_set(|world| {
+            if world.current.is_some() {
+                world.current_host_mut().timer.now(now);
+            }
+        });
 
         if let Kind::Host { software } = &self.kind {
             let handle = with(&self.tokio, &self.local, || {
